@@ -1,10 +1,10 @@
 SPECIFICATION LSpec
 CONSTANTS
   Insts = {1, 2}
-  Conns = {1, 2, 3}
-  Acts = {"idle", "midpipe", "multi", "blocked"}
-  MaxSteps = 6
-  Ports = {1}
+  Conns = {1, 2}
+  Acts = {"idle", "blocked", "multi"}
+  MaxSteps = 5
+  Ports = {1, 2}
 INVARIANT ClosedMeansDisconnected
 INVARIANT PortConsistent
 INVARIANT NoSharedData
